@@ -58,6 +58,9 @@ static void use(struct tres *r, int desc, int k, int m, int wbytes, int strict)
     if (rc == 0) { r->h = mix(r->h, ob, fl); if (strict && memcmp(ob, F[k], fl)) { r->bad = 1; snprintf(r->what, sizeof r->what, "reconstruct returned wrong bytes"); } }
     else { r->bad = 1; snprintf(r->what, sizeof r->what, "reconstruct returned %d", rc); }
     int fs = liberasurecode_get_fragment_size(desc, 100); r->h = mix(r->h, &fs, sizeof fs);
+    /* the availability query is a public entry point too: every back end id, answers hashed */
+    { static const int ids[] = { EC_BACKEND_NULL, EC_BACKEND_FLAT_XOR_HD, EC_BACKEND_ISA_L_RS_VAND, EC_BACKEND_LIBERASURECODE_RS_VAND, EC_BACKEND_ISA_L_RS_CAUCHY, EC_BACKENDS_MAX };
+      for (int q = 0; q < 6; q++) { int av = liberasurecode_backend_available((ec_backend_id_t)ids[q]); r->h = mix(r->h, &av, sizeof av); } }
     liberasurecode_encode_cleanup(desc, ed, ep);
 }
 /* the whole data plane on an instance that already exists: encode, decode from several erasure sets (fast path, one and
@@ -128,6 +131,8 @@ static void use_full(struct tres *r, int desc, int be, int k, int m, int hd, int
     if (rc) { r->bad = 1; snprintf(r->what, sizeof r->what, "verify_stripe_metadata on a fresh stripe returned %d", rc); }
     int q[3] = { liberasurecode_get_fragment_size(desc, 100), liberasurecode_get_aligned_data_size(desc, 100), liberasurecode_get_minimum_encode_size(desc) };
     r->h = mix(r->h, q, sizeof q);
+    { static const int ids[] = { EC_BACKEND_NULL, EC_BACKEND_FLAT_XOR_HD, EC_BACKEND_ISA_L_RS_VAND, EC_BACKEND_LIBERASURECODE_RS_VAND, EC_BACKEND_ISA_L_RS_CAUCHY, EC_BACKENDS_MAX };
+      for (int q = 0; q < 6; q++) { int av = liberasurecode_backend_available((ec_backend_id_t)ids[q]); r->h = mix(r->h, &av, sizeof av); } }
     for (int i = 0; i < n; i++) free(un[i]);
     liberasurecode_encode_cleanup(desc, ed, ep);
 }
